@@ -531,7 +531,7 @@ def rand_tree(rng, rootname, n_nodes, names=None, classes=('Node', 'Array', 'Poi
             continue
         c = rng.choice(classes)
         node = {'cls': c, 'name': rng.choice(cand), 'tok': fresh_tok() if c != 'Node' else 0,
-                'rank': rng.choice([1, 1, 2, 3]) if c == 'Array' else 0, 'mds': [], 'kids': []}
+                'rank': rng.choice([1, 1, 2, 3, 0]) if c == 'Array' else 0, 'mds': [], 'kids': []}
         if rng.random() < md_p:
             node['mds'] = [[k, fresh_tok()] for k in rng.sample(['m1', 'm2', 'm3'], rng.choice([1, 1, 2]))]
         parent['kids'].append(node)
